@@ -423,7 +423,7 @@ def main():
     nshard = max(1, min(14, (len(lemmas) + 2) // 3))
     shards = [lemmas[i::nshard] for i in range(nshard)]
     from concurrent.futures import ThreadPoolExecutor
-    timeout = 300 if a.tier == "quick" else 900
+    timeout = 900 if a.tier == "quick" else 2400
     with ThreadPoolExecutor(max_workers=14) as ex:
         res = list(ex.map(lambda s: run_shard(a.builddir, a.prop, s[0], s[1], mt, gt, timeout), enumerate(shards)))
     mism = [m for r in res for m in r]
